@@ -2,6 +2,7 @@
 package props
 
 import (
+	"bufio"
 	"bytes"
 	"encoding/json"
 	"fmt"
@@ -65,6 +66,10 @@ func detect(in []byte, limit uint32, entry string) (*mimetype.MIME, error) {
 		return mimetype.DetectReader(bytes.NewReader(in))
 	case "DetectReader1":
 		return mimetype.DetectReader(iotest1{bytes.NewReader(in)})
+	case "DetectReaderBufio": // a *bufio.Reader with the default 4096-byte buffer
+		return mimetype.DetectReader(bufio.NewReader(bytes.NewReader(in)))
+	case "DetectReaderBufio16":
+		return mimetype.DetectReader(bufio.NewReaderSize(iotest1{bytes.NewReader(in)}, 16))
 	default:
 		return mimetype.Detect(in), nil
 	}
@@ -183,4 +188,48 @@ func maxInt(a, b int) int {
 		return a
 	}
 	return b
+}
+
+// exceptionJustified decides whether a result outside the expected family is the
+// "bytes also carry a higher-priority signature" exception of the statements. The
+// signatures are written here as they were pinned when the properties were stated
+// (only for the formats the generators can deliberately trigger); a format that is
+// not in this table, or whose pinned signature the examined header does not carry,
+// is not an exception: a signature that was widened until it captures other
+// formats' files is exactly the regression the statements exclude.
+func exceptionJustified(format string, h []byte) (bool, string) {
+	at := func(off int, lits ...string) bool {
+		for _, l := range lits {
+			if len(h) >= off+len(l) && string(h[off:off+len(l)]) == l {
+				return true
+			}
+		}
+		return false
+	}
+	switch format {
+	case "image/svg+xml":
+		return bytes.Contains(h, []byte("<svg")), "pinned signature: the bytes \"<svg\" somewhere in the header"
+	case "application/x-msaccess":
+		return at(4, "Standard Jet DB", "Standard ACE DB"), "pinned signature: \"Standard Jet DB\" / \"Standard ACE DB\" at offset 4"
+	case "image/x-gimp-gbr":
+		return at(20, "GIMP"), "pinned signature: \"GIMP\" at offset 20"
+	case "image/x-gimp-pat":
+		return at(20, "GPAT"), "pinned signature: \"GPAT\" at offset 20"
+	case "application/pdf":
+		return at(0, "%PDF-", "\n%PDF-", "\xef\xbb\xbf%PDF-"), "pinned signature: %PDF- at the start (optionally after LF or a UTF-8 BOM)"
+	case "application/vnd.microsoft.portable-executable":
+		return at(0, "MZ"), "pinned signature: MZ at the start"
+	case "application/x-elf":
+		return at(0, "\x7fELF"), "pinned signature: 7F 45 4C 46 at the start"
+	case "application/x-mobipocket-ebook":
+		return at(60, "BOOKMOBI"), "pinned signature: BOOKMOBI at offset 60"
+	case "application/dicom":
+		return at(128, "DICM"), "pinned signature: DICM at offset 128"
+	case "image/gif":
+		return at(0, "GIF87a", "GIF89a"), "pinned signature: GIF87a / GIF89a at the start"
+	case "application/zip":
+		ok := len(h) > 3 && h[0] == 'P' && h[1] == 'K' && (h[2] == 3 || h[2] == 5 || h[2] == 7) && (h[3] == 4 || h[3] == 6 || h[3] == 8)
+		return ok, "pinned signature: PK 03/05/07 04/06/08 at the start"
+	}
+	return false, "not a format whose pinned signature the generated inputs can carry"
 }
